@@ -1180,6 +1180,49 @@ func c15R5(p *core.Program, r *core.Report, evalNode *ssa.Function) {
 			}
 		})
 	}
+	// the node whose children are spliced in is the node whose operator was compared
+	nSplice := 0
+	for _, h := range hosts {
+		core.EachInstr(h, false, func(_ *ssa.Function, in ssa.Instruction) {
+			call, ok := in.(*ssa.Call)
+			if !ok || len(call.Call.Args) != 2 {
+				return
+			}
+			if b, isB := call.Call.Value.(*ssa.Builtin); !isB || b.Name() != "append" {
+				return
+			}
+			ld, ok := call.Call.Args[1].(*ssa.UnOp)
+			if !ok || ld.Op != token.MUL {
+				return
+			}
+			fa, ok := ld.X.(*ssa.FieldAddr)
+			if !ok || core.FieldAddrVar(fa) == nil || core.FieldAddrVar(fa).Name() != "children" {
+				return
+			}
+			if len(h.Params) > 0 && fa.X == ssa.Value(h.Params[0]) && h == simp {
+				return // the combination's own children
+			}
+			nSplice++
+			tested := false
+			for _, ce := range core.ControllingConds(call.Block()) {
+				bo, ok := ce.Cond.(*ssa.BinOp)
+				if !ok || bo.Op != token.EQL || !ce.Taken {
+					continue
+				}
+				for _, o := range []ssa.Value{bo.X, bo.Y} {
+					if u, ok := o.(*ssa.UnOp); ok {
+						if ofa, ok := u.X.(*ssa.FieldAddr); ok && core.FieldAddrVar(ofa) != nil && core.FieldAddrVar(ofa).Name() == "op" && ofa.X == fa.X {
+							tested = true
+						}
+					}
+				}
+			}
+			r.Check(tested, "R5", fmt.Sprintf("BoolCombination.Simplify/splices-the-node-it-tested#%d", nSplice), p.Pos(call.Pos()), "the children spliced in belong to the node whose operator equals the parent's",
+				"Simplify splices the children of one node into the parent after comparing the operator of another node (the child before it was simplified): AND(a, AND(OR(b, c))) comes out as a AND b AND c")
+		})
+	}
+	r.Count("simplify_splices", nSplice)
+	r.Require("simplify_splices", nSplice, 1)
 	simpDecl := simp
 	for _, h := range hosts {
 		n := 0
